@@ -91,7 +91,7 @@ theorem skipsepLoop_spec (sep : Bytes) (fuel : Nat) : ∀ (b : Buf), WF b → b.
         have : ¬ runLen (isSep sep) b.win = b.win.length := by omega
         rw [h.suffix_win, runLen_append, if_neg this]
       refine ⟨⟨h.hwin, Nat.le_of_lt hfound,
-          fun a ha => Nat.le_trans (h.hanch a ha) (Nat.le_add_right _ _), h.hps, h.heof, h.hnofp⟩,
+          h.hanch, h.hps, h.heof, h.hnofp⟩,
         setpos_keep b _, ?_, Or.inl ⟨rfl, hfound⟩⟩
       show b.base + (b.pos + runLen (isSep sep) b.win) = _
       rw [hrun]; omega
@@ -100,7 +100,7 @@ theorem skipsepLoop_spec (sep : Bytes) (fuel : Nat) : ∀ (b : Buf), WF b → b.
       have hposn : b.pos + runLen (isSep sep) b.win = b.n := by omega
       rw [hposn]
       have hwf1 : WF { b with pos := b.n } :=
-        ⟨h.hwin, Nat.le_refl _, fun a ha => Nat.le_trans (h.hanch a ha) hp, h.hps, h.heof, h.hnofp⟩
+        ⟨h.hwin, Nat.le_refl _, h.hanch, h.hps, h.heof, h.hnofp⟩
       have hr := refill_post { b with pos := b.n } 0 hwf1
       have hk := refill_keep { b with pos := b.n } 0 hwf1
       generalize hrf : refill { b with pos := b.n } 0 = rf at *
